@@ -398,6 +398,8 @@ def run_impl(case):
     reads = {"end": [], "efd": []}
     results = {"diff": [], "grad": [], "gradn": []}
     trace = []
+    present = lambda: [int("edge_node_distances" in g._ds), int("edge_face_distances" in g._ds)]
+    presence = [present()]
     history = list(case.get("history") or ["end", "efd", "diff", "grad", "gradn"]) + ["end", "efd"]
     for op in history:
         trace.append(op)
@@ -415,6 +417,9 @@ def run_impl(case):
             r = fda.gradient(normalize=True)
             if fda is da:
                 results["gradn"].append(r)
+        presence.append(present())
+    out["presence"] = presence
+    out["history_run"] = history
     out["reads"] = reads
     out["end"] = reads["end"][-1][1]
     out["efd"] = reads["efd"][-1][1]
@@ -724,7 +729,9 @@ def model_lines(case, o):
         x = float(x)
         dist.append(sxq(frac(x)) if np.isfinite(x) and x > 0 else [1, 1])
     data = sx([rows, en, ef, dist, 1 if case["kind"] == "node" else 0])
-    return plans, data
+    codes = {"end": 0, "efd": 1, "diff": 2, "grad": 3, "gradn": 4}
+    hist = sx([1 if case["sup_end"] else 0, 1 if case["sup_efd"] else 0, en, ef, [codes[h] for h in o["history_run"]]])
+    return plans, data, hist
 
 
 def compare_model(ck, case, o, mplans, mdata, stats):
@@ -884,13 +891,22 @@ def main(ck):
     # model on the same connectivity and data
     if ok:
         live = [(c, o) for c, o in zip(cases, outs) if o is not None]
-        pl, dl = [], []
+        pl, dl, hl = [], [], []
         for c, o in live:
-            a, b = model_lines(c, o)
+            a, b, h = model_lines(c, o)
             pl.append(a)
             dl.append(b)
+            hl.append(h)
         mp_ = ck.run_model("plans", pl)
         md_ = ck.run_model("data", dl)
+        mh_ = ck.run_model("history", hl)
+        for (c, o), mh in zip(live, mh_):
+            # which distance tables exist in Grid._ds after every step of the history
+            if mh != o["presence"]:
+                ck.corr_failures.append({"case": {k: v for k, v in c.items() if k not in ("vals", "_failed")},
+                                         "diff": {"why": "table presence along the history", "model": mh,
+                                                  "impl": o["presence"], "history": o["history_run"]}})
+        stats["history_presence_compared"] = len(live)
         for (c, o), a, b in zip(live, mp_, md_):
             if (isinstance(a, list) and a and a[0] == "ERR") or (isinstance(b, list) and b and b[0] == "ERR"):
                 ck.corr_failures.append({"case": {k: v for k, v in c.items() if k != "vals"}, "model": [a, b][:1]})
